@@ -63,6 +63,12 @@ Scenario(k, W, nr, r) ==
        limits |-> IF W[k].cls = "large" THEN "none" ELSE LimitKinds[((c \div 4) % 4) + 1],   \* large: whole isotherm
        order |-> Orders[((c \div 16) % 4) + 1]]
 NScen(nw) == Len(Weights(nw))
+
+\* Histories: the result of a fit is a function of the CONTENT of the kernel file it names and of the isotherm, not of
+\* which kernel files were used before.  Two different user kernels that share their file name (in different
+\* directories) are fitted in every order of length 4; each fit is judged like a first call.
+HistoryKernels == {"user5", "user5b"}
+Histories == [1..4 -> HistoryKernels]
 Scenarios(nw, nr, r) == LET W == TLCEval(Weights(nw)) IN [k \in 1..Len(W) |-> Scenario(k, W, nr, r)]
 
 ---------------------------------------------------------------------------
